@@ -17,6 +17,7 @@ CHECKS = {
  "C09": ("the harness records plain git blame --line-porcelain (originating commit, path and line there) next to git-ai blame --json; TLC evaluates C09_Overlay = overlay of the recorded git blame with the observed notes, and C09_Formats (porcelain / line-porcelain / incremental name git's commits; readable and JSON output agree under -L ranges); histories include renames (git mv), amend, rebase, cherry-pick, squash", "DESIGN.md 5 C09"),
  "C19": ("for every commit of every replayed history the harness logs git-ai stats --json and git's numstat; TLC evaluates the identities of C19_Stats, computing added / deleted / accepted lines itself from the recorded trees and observed notes", "DESIGN.md 5 C19"),
  "C10": ("spec/NotesSync.tla: every ordering of commit / push / fetch by two or three clones of one bare remote within the bounds is explored by TLC (C10_Converged as invariant); the behaviours are replayed with real clones driven through the wrapper (git clone, push, fetch over a local remote), each repository's notes refs are projected to the set of commits holding the byte-identical note its author's clone wrote, and TLC validates the traces, evaluating C10_Converged, C10_NoForeign and the action property C10_NeverRemoved on the observed states", "DESIGN.md 5 C10"),
+ "C11": ("spec/Concurrency.tla decomposes concurrent checkpoint processes at the read and write of checkpoints.jsonl (hook H1 sync points); TLC enumerates every interleaving for two and three processes in one work tree and across linked worktrees; a controller replays each interleaving on real git-ai processes and TLC validates the traces, evaluating C11_NothingLost on the observed working logs. The as-built design has no lock: interleavings in which two read-modify-write sections of one working log overlap lose a checkpoint (known finding F7, delimited by the model's taint); all other schedules, and all schedules across worktrees, must hold", "DESIGN.md 5 C11"),
  "C12": ("twin execution: every selected behaviour (commits, partial commits, rebase, cherry-pick, squash, amend) is run once in a clean configuration and once under a covering family of git configurations (diff prefixes, external diff, textconv, colour, rename detection, algorithm, quotePath, pager, blame/notes/grep settings, GIT_EXTERNAL_DIFF) and start directories (subdirectory, -C); TLC evaluates Twin_Obs / Twin_Equiv / Twin_Blame on the pair of observed note and blame projections", "DESIGN.md 5 C12"),
  "C13": ("twin execution: the same behaviours run through the git-ai wrapper and through managed git hooks with plain git; TLC evaluates Twin_Obs / Twin_Equiv / Twin_Blame on the two observed projections (commit, partial commit, amend, rebase, cherry-pick, squash, reset, stash, checkout)", "DESIGN.md 5 C13"),
  "C15": ("twin execution with hook H3: each rebase / cherry-pick behaviour runs with the note-remapping shortcut and with the shortcut forced to decline; TLC evaluates Twin_Obs (observable part), Twin_Exact (line sets, prompts) and Twin_Blame on the two observed notes", "DESIGN.md 5 C15"),
@@ -29,11 +30,13 @@ m = {
  "hooks": {"guard": "git_ai_verif (rustc --cfg)",
            "enable": "scripts/build.sh: RUSTFLAGS='--cfg git_ai_verif --check-cfg cfg(git_ai_verif)' cargo build --offline --features test-support --bin git-ai --target-dir /verif/harness/target/gitai",
            "baseline_off_cmd": "cd /repo && cargo nextest run --workspace --no-fail-fast --tool-config-file pb:/w/lib/nextest.toml --profile pb --test-threads 8 --offline",
-           "source_commits": ["77aecccd"], "add_only": True},
- "engines": [{"name": "notes-sync", "path": "spec/NotesSync.tla, harness/gaih/sync.py", "serves_properties": ["C10"],
+           "source_commits": ["77aecccd", "4294eaf7"], "add_only": True},
+ "engines": [{"name": "concurrency", "path": "spec/Concurrency.tla, harness/gaih/conc.py", "serves_properties": ["C11"],
+              "kind_free_text": "TLA+ model of the read/write steps of concurrent checkpoint processes; TLC enumerates interleavings; a controller drives real processes through sync points (hook H1); TLC trace validation"},
+             {"name": "notes-sync", "path": "spec/NotesSync.tla, harness/gaih/sync.py", "serves_properties": ["C10"],
               "kind_free_text": "TLA+ model of notes synchronisation between clones and a remote; TLC enumerates all orderings; replay with real clones over a local bare remote; TLC trace validation"},
              {"name": "gitai-core", "path": "spec/GitAiCore.tla, spec/MC_Core.tla, harness/gaih",
-              "serves_properties": sorted(k for k in CHECKS if k != "C10"),
+              "serves_properties": sorted(k for k in CHECKS if k not in ("C10", "C11")),
               "kind_free_text": "explicit TLA+ model of git-ai in one clone (ground truth by line identity + mechanism transcribed from the code with named as-built deviations); TLC explores it exhaustively and emits replay scripts; a python driver runs them against the binary built from /repo and projects the real repository onto the model's variables; TLC validates the recorded traces, evaluating the property clauses on the observed states and reporting model drift"}],
  "checks": [],
  "not_applicable": [],
@@ -47,7 +50,7 @@ for p in props:
                             "thorough_cmd": "scripts/check %s thorough" % pid,
                             "evidence_file": "evidence/%s.json" % pid,
                             "replay_cmd_template": "scripts/check --replay {path}",
-                            "engine": "notes-sync" if pid == "C10" else "gitai-core",
+                            "engine": {"C10": "notes-sync", "C11": "concurrency"}.get(pid, "gitai-core"),
                             "level_claimed": {"category": "model_checking", "text": text, "design_ref": ref},
                             "level_note": CORE_NOTE, "technique": TECH})
     else:
